@@ -17,6 +17,7 @@ pub fn case_of(profile: &str, seed: u64) -> serde_json::Value {
     match profile {
         "save" => serde_json::to_value(crate::savesim::gen_case(seed)).unwrap(),
         "faults" => serde_json::to_value(crate::wrun::generate_and_run("faults", seed).0).unwrap(),
+        "bulkhuge" => serde_json::json!({"profile": "bulkhuge", "note": "history omitted (thousands of handles); regenerate from the seed"}),
         _ => serde_json::to_value(crate::wrun::generate_and_run("single", seed).0).unwrap(),
     }
 }
@@ -53,6 +54,22 @@ pub fn transcript(profile: &str, seed: u64) -> (u64, Option<Viol>, BTreeMap<Stri
                 rep.counters.get("fault.destructor_panic.fired").copied().unwrap_or(0),
             );
             (t.0, rep.violation, c)
+        }
+        "bulkhuge" => {
+            let (_case, out) = crate::wrun::generate_and_run("bulkhuge", seed);
+            let mut c = BTreeMap::new();
+            c.insert("ops".to_string(), out.stats.ops);
+            c.insert("handles_in_transcript".to_string(), out.stats.creations);
+            c.insert("batch_deletions_failed_partway".to_string(), out.stats.batch_failures);
+            (
+                out.trace_hash,
+                out.violation.map(|v| Viol {
+                    props: v.props,
+                    oracle: v.oracle,
+                    detail: v.detail,
+                }),
+                c,
+            )
         }
         _ => {
             let (_case, out) = crate::wrun::generate_and_run("single", seed);
